@@ -11,6 +11,8 @@
 #include "hx_common.hpp"
 #include <xercesc/dom/DOM.hpp>
 #include <xercesc/util/OutOfMemoryException.hpp>
+#include <xercesc/parsers/XercesDOMParser.hpp>
+#include <xercesc/framework/MemBufInputSource.hpp>
 #include <unistd.h>
 #include <csignal>
 #include <sys/time.h>
@@ -177,6 +179,16 @@ static void collectKids(DOMNode* n, std::vector<int>& out) {
     for (DOMNode* c = n->getFirstChild(); c && k < H.size() + 4; c = c->getNextSibling(), k++) { int h = hIdx(c); if (h >= 0) out.push_back(h); }
 }
 
+// handles for a whole subtree in document order: node, its attributes (each followed by its children), its children
+static void assignSubtree(DOMNode* n, int depth = 0) {
+    if (!n || depth > 4000) return;
+    if (hIdx(n) < 0) newHandle(n);
+    DOMNamedNodeMap* am = n->getAttributes();
+    if (am) for (XMLSize_t i = 0; i < am->getLength(); i++) assignSubtree(am->item(i), depth + 1);
+    size_t k = 0;
+    for (DOMNode* c = n->getFirstChild(); c && k < 100000; c = c->getNextSibling(), k++) assignSubtree(c, depth + 1);
+}
+
 static std::string doOp(const std::vector<std::string>& f) {
     const std::string& op = f[0];
     auto num = [&](size_t i) -> long { if (i >= f.size()) return -1; char* e = 0; long v = strtol(f[i].c_str(), &e, 10); return (*e || f[i].empty()) ? -1 : v; };
@@ -194,7 +206,9 @@ static std::string doOp(const std::vector<std::string>& f) {
         else if (op == "cd") r = doc->createCDATASection(x.data());
         else if (op == "ca") r = doc->createAttribute(x.data());
         else r = doc->createEntityReference(x.data());
-        newHandle(r); return okNode(r);
+        if (op == "cr") assignSubtree(r);     // an entity declared in the doctype brings its (read-only) expansion along
+        else newHandle(r);
+        return okNode(r);
     }
     if (op == "cp" && n == 4) {
         long d = num(1); if (!live(d)) return "dead";
@@ -315,6 +329,14 @@ static std::string doOp(const std::vector<std::string>& f) {
         long x = num(1); if (!live(x)) return "dead";
         H[x]->normalize(); return "ok -";
     }
+    if (op == "rns" && n == 5) {      // renameNode(node, namespaceURI, qualifiedName)
+        long d = num(1), x = num(2); if (!live(d) || !live(x)) return "dead";
+        if (!isType(d, DOMNode::DOCUMENT_NODE)) return "mismatch";
+        std::vector<XMLCh> ns = toX(f[3]), nm = toX(f[4]);
+        DOMNode* r = static_cast<DOMDocument*>(H[d])->renameNode(H[x], ns.data(), nm.data());
+        if (r && hIdx(r) < 0) newHandle(r);
+        return okNode(r);
+    }
     if (op == "rnm" && n == 4) {
         long d = num(1), x = num(2); if (!live(d) || !live(x)) return "dead";
         if (!isType(d, DOMNode::DOCUMENT_NODE)) return "mismatch";
@@ -330,6 +352,26 @@ static void reset(int k) {
     if (!corrupted) for (DOMDocument* d : docs) d->release();
     docs.clear(); H.clear(); alive.clear(); rev.clear(); corrupted = false;
     for (int i = 0; i < k; i++) { DOMDocument* d = gImpl->createDocument(); docs.push_back(d); newHandle(d); }
+}
+
+// "resetp": document 0 is PARSED (entity-reference nodes kept, namespaces off) so that the histories have a read-only
+// subtree with element + attribute content; every node of it gets a handle in document order; then one empty document.
+static const char* kPrefixDoc =
+    "<!DOCTYPE r [<!ENTITY e \"<x a='1' b='2'>t<y a='3'>u</y></x>\">]>"
+    "<r w=\"0\"><p a=\"free\">q</p>&e;<c/><!--z--></r>";
+static void resetParsed() {
+    if (!corrupted) for (DOMDocument* d : docs) d->release();
+    docs.clear(); H.clear(); alive.clear(); rev.clear(); corrupted = false;
+    XercesDOMParser parser;
+    parser.setCreateEntityReferenceNodes(true);
+    parser.setDoNamespaces(false);
+    parser.setValidationScheme(XercesDOMParser::Val_Never);
+    MemBufInputSource src((const XMLByte*)kPrefixDoc, strlen(kPrefixDoc), "hx_dom_prefix");
+    parser.parse(src);
+    DOMDocument* d = parser.adoptDocument();
+    docs.push_back(d);
+    assignSubtree(d);
+    DOMDocument* d2 = gImpl->createDocument(); docs.push_back(d2); newHandle(d2);
 }
 
 int main(int argc, char** argv) {
@@ -352,6 +394,15 @@ int main(int argc, char** argv) {
             arm(watchdogMs);
             reset(atoi(f[1].c_str()));
             emit("ok -");
+            arm(0);
+            fflush(stdout);
+            continue;
+        }
+        if (f[0] == "resetp" && f.size() == 1) {
+            fflush(stdout);
+            arm(watchdogMs);
+            try { resetParsed(); emit("ok -"); }
+            catch (...) { puts("exc PARSE-FAILED | "); }
             arm(0);
             fflush(stdout);
             continue;
